@@ -41,6 +41,26 @@ RULES = {
         replace='crate::hoist::extend_be_bytes(&mut data, slice)',
         why='FlatMap has no vstd model',
         assumes='appends the 32-byte big-endian encodings of the slice elements, in order'),
+    # ---- fri/first_layer.rs
+    'R2_enumerate_queries': dict(
+        kind='R2',
+        pattern='for (index, query) in queries.iter().enumerate() {',
+        replace='for index in 0..queries.len() { let query = &queries[index];',
+        why='Enumerate and tuple patterns in `for` have no vstd model',
+        assumes='std semantics of slice::Iter::enumerate(): yields (i, &s[i]) for i = 0..len in order'),
+    # ---- fri/last_layer.rs
+    'R3_iter_mut_readonly': dict(
+        kind='R3',
+        pattern='for query in quries.iter_mut() {',
+        replace='for query in quries.iter() {',
+        why='iter_mut has no vstd model; the loop body only reads `query` (a body that wrote through it would no longer type-check after the rewrite)',
+        assumes='no assumption: for a body that does not write through the item, iter_mut() and iter() visit the same elements in the same order'),
+    'R2_rev_loop': dict(
+        kind='R2',
+        pattern='for coef in coefs.iter().rev() $BODY result }',
+        replace='{ let mut i__ = coefs.len(); while i__ > 0 { i__ -= 1; let coef = &coefs[i__]; $BODY } } result }',
+        why='Rev has no vstd model',
+        assumes='std semantics of slice::Iter::rev(): elements visited from the last to the first'),
     # ---- stark/queries.rs
     'R2_generate_queries': dict(
         kind='R2',
